@@ -105,6 +105,9 @@ META["rule"] += (
 META["rule"] += (
     " " + 'Added after the seventh round: whole-numbered lookup queries next to nodes as int / int8 / uint8 / int16 / int64 / float32 scalars.')
 
+META["rule"] += (
+    " " + 'Added after the eighth round: node weights of ClimateNetwork and CoupledClimateNetwork (two grids) built on the same coordinates.')
+
 STYLES = ["generic", "pole", "antimeridian", "coincident", "antipodal",
           "regular", "mixed"]
 
@@ -679,6 +682,34 @@ def check_network(ctx, GeoGrid, GeoNetwork, lat, lon, A, directed, wtype,
                           {**case, "how": how, "node": i, "w": w[i],
                            "want": want[i]}, cid)
     weights(wtype, "constructor")
+    # the climate networks are geographical networks too: same weights from
+    # their own constructors (one grid, or two grids joined layer by layer)
+    if n >= 2:
+        from pyunicorn.climate import ClimateNetwork, CoupledClimateNetwork
+        rs = ctx.rng("climsim", cid)
+        S = rs.random((n, n))
+        S = (S + S.T) / 2
+        k1 = int(rs.integers(1, n))
+        geo_net = net
+        for how, mk in (
+                ("ClimateNetwork", lambda: ClimateNetwork(
+                    g, S, threshold=0.5, node_weight_type=wtype,
+                    silence_level=3)),
+                ("CoupledClimateNetwork", lambda: CoupledClimateNetwork(
+                    GeoGrid(np.arange(2), lat[:k1], lon[:k1],
+                            silence_level=3),
+                    GeoGrid(np.arange(2), lat[k1:], lon[k1:],
+                            silence_level=3),
+                    S, threshold=0.5, node_weight_type=wtype,
+                    silence_level=3))):
+            okc, cn = ctx.call(mk)
+            if okc and getattr(cn, "N", None) == n:
+                net = cn
+                weights(wtype, how)
+                ctx.count("climate_network_weights_checked")
+            elif not okc:
+                ctx.count("climate_constructor_rejected")
+        net = geo_net
     other = "irrigation" if wtype == "surface" else "surface"
     ok, _ = ctx.call(net.set_node_weight_type, other)
     if ok:
